@@ -17,6 +17,7 @@ def dispatch (focus : String) (c : Case) : String :=
   | "state" => handleState focus c
   | "fit" => handleFit focus c
   | "fault" => handleFault focus c
+  | "robust" => handleRobust focus c
   | "stats" => handleStats focus c
   | k => s!"corr=INTERNAL(unknown-kind-{k}) mon=ok nontrivial=0 tag=none"
 
